@@ -25,6 +25,9 @@ func main() {
 		return
 	}
 	thorough := run.Tier == "thorough"
+	if thorough {
+		gaveUpLimit = 12
+	}
 	n := run.N
 	if n == 0 {
 		n = 20000
@@ -80,7 +83,8 @@ func main() {
 	doPlan("sticky", "other", f12Witness())
 	doPlan("sticky", "other", parseGroup("m1:t2:g1:t1/0,t2/0;m2:t1:g2:t1/0,t1/1,t1/2;m3:t1:g2:t1/3", "t1:0,1,2,3;t2:0")) // revert witness
 	doPlan("rr", "-", parseGroup("m1:t1:-:;m2:t1:-:", "t1:0,1;t2:0"))
-	calls += 3
+	doF12()
+	calls += 4
 
 	// ---- 3. exhaustive small shapes, all three strategies; sticky: fresh + replan + one more change
 	visit := func(g *Group) {
